@@ -40,6 +40,8 @@ package libinjection
 //@   loop 1 invariant [C02 C15 C17] old(h.pos) <= h.pos && h.pos <= h.len
 //@   loop 1 invariant [C02 C15 C17] forall k in [old(h.pos), h.pos): isWS0(h.s[k])
 //@   loop 1 decreases h.len - h.pos
+//@   cost     <= h.pos - old(h.pos)
+//@   loop 1 invariant [C09] $cost <= h.pos - old(h.pos)
 
 //@ func (*h5State).stateEOF
 //@   modifies nothing
@@ -59,6 +61,7 @@ package libinjection
 //@   rank     1
 //@   ensures  result
 //@   ensures  [C17] @first_terminator postBogus(h, old(h.pos))
+//@   cost     <= cpos(h) - old(h.pos) + 2
 
 // ---- <% .. %> : ends at the first "%>"
 //@ spec pctAt(h *h5State, k int) bool = k + 1 < h.len && h.s[k] == '%' && h.s[k+1] == '>'
@@ -77,6 +80,8 @@ package libinjection
 //@   loop 1 invariant old(h.pos) <= pos && pos <= h.len && unchangedH(h)
 //@   loop 1 invariant [C17] forall k in [old(h.pos), pos): !pctAt(h, k)
 //@   loop 1 decreases h.len - pos
+//@   cost     <= 3 * (cpos(h) - old(h.pos)) + 4
+//@   loop 1 invariant [C09] $cost <= 3 * (pos - old(h.pos))
 
 // ---- <![CDATA[ .. ]]> : ends at the first "]]>"
 //@ spec cdEndAt(h *h5State, k int) bool = k + 2 < h.len && h.s[k] == ']' && h.s[k+1] == ']' && h.s[k+2] == '>'
@@ -95,6 +100,8 @@ package libinjection
 //@   loop 1 invariant old(h.pos) <= pos && pos <= h.len && unchangedH(h)
 //@   loop 1 invariant [C17] forall k in [old(h.pos), pos): !cdEndAt(h, k)
 //@   loop 1 decreases h.len - pos
+//@   cost     <= 3 * (cpos(h) - old(h.pos)) + 4
+//@   loop 1 invariant [C09] $cost <= 3 * (pos - old(h.pos))
 
 //@ spec noLtEq(h *h5State) bool = forall k in [0, h.len): h.s[k] != '<' && h.s[k] != '='
 // ---- C15: without '<' and '=' the machine stays in states that cannot emit a firing token
@@ -104,6 +111,8 @@ package libinjection
 
 // ---- stream potential: every emitted token lies at or after lowB(old), ends at or before
 // lowB(new), and strictly increases potQ; potQ <= len+1 bounds the number of tokens.
+//@ spec cpos(h *h5State) int = h.state == h.stateEOF ? h.len : h.pos
+//@ spec nulRun(h *h5State, p int) int = firstNeAbs(arr(h.s), off(h.s) + p, off(h.s) + h.len, 0) - (off(h.s) + p)
 //@ spec streamOK(h *h5State, lo int) bool = tokOK(h) && lo <= tokOff(h) && tokOff(h) + h.tokenLen <= lowB(h) && lowB(h) <= h.len
 //@ spec midState(h *h5State) bool = h.state != h.stateTagNameClose && !quoteState(h)
 //@ spec wfM(h *h5State) bool = wfH0(h) && knownState(h)
@@ -127,6 +136,9 @@ package libinjection
 //@   loop 2 invariant 1 <= offset && pos + index + offset <= h.len && unchangedH(h)
 //@   loop 2 invariant [C17] forall j in [pos + index + 1, pos + index + offset): h.s[j] == 0
 //@   loop 2 decreases h.len - (pos + index + offset)
+//@   cost     <= 3 * (cpos(h) - old(h.pos)) + 8
+//@   loop 1 invariant [C09] $cost <= 3 * (pos - old(h.pos)) + nulRun(h, pos)
+//@   loop 2 invariant [C09] $cost <= 3 * (pos - old(h.pos)) + nulRun(h, pos) + index + 2 + (offset - 1) && nulRun(h, pos) <= index && 0 <= index && h.s[pos + index] == '-'
 
 //@ spec postDoctype(h *h5State, p int) bool = wfH0(h) && tokOK(h) && tokOff(h) == p && h.tokenType == html5TypeDocType &&
 //@      (h.state == h.stateEOF || h.state == h.stateData) &&
@@ -140,6 +152,7 @@ package libinjection
 //@   rank     1
 //@   ensures  result && wfH(h) && h.isClose == old(h.isClose)
 //@   ensures  [C17] @first_terminator postDoctype(h, old(h.pos))
+//@   cost     <= cpos(h) - old(h.pos) + 2
 
 //@ spec doctypeAt(h *h5State, p int) bool = p + 7 <= h.len && up(h.s[p]) == 'D' && up(h.s[p+1]) == 'O' && up(h.s[p+2]) == 'C' &&
 //@      up(h.s[p+3]) == 'T' && up(h.s[p+4]) == 'Y' && up(h.s[p+5]) == 'P' && up(h.s[p+6]) == 'E'
@@ -194,6 +207,8 @@ package libinjection
 //@   loop 1 invariant old(h.pos) <= pos && pos <= h.len && unchangedH(h)
 //@   loop 1 invariant [C17] forall k in [old(h.pos), pos): !tagNameEnd(h.s[k])
 //@   loop 1 decreases h.len - pos
+//@   cost     <= 2 * (cpos(h) - old(h.pos)) + 4
+//@   loop 1 invariant [C09] $cost <= 2 * (pos - old(h.pos))
 
 //@ func (*h5State).stateEndTagOpen
 //@   requires wfH(h) && midState(h)
@@ -241,6 +256,8 @@ package libinjection
 //@   loop 1 invariant old(h.pos) <= pos && pos <= h.len && unchangedH(h)
 //@   loop 1 invariant [C17] forall k in [old(h.pos), pos): !(isWS(h.s[k]) || h.s[k] == '>')
 //@   loop 1 decreases h.len - pos
+//@   cost     <= 2 * (cpos(h) - old(h.pos)) + 4
+//@   loop 1 invariant [C09] $cost <= 2 * (pos - old(h.pos))
 
 //@ func (*h5State).stateBeforeAttributeValue
 //@   requires wfH(h) && midState(h)
@@ -278,6 +295,8 @@ package libinjection
 //@   loop 1 invariant [C17] forall k in [old(h.pos) + 1, pos): !attrNameEnd(h.s[k])
 //@   loop 1 decreases h.len - pos
 //@   ensures  [C15] @safe noLtEq(h) ==> safeState(h) && safeTok(h)
+//@   cost     <= 2 * (cpos(h) - old(h.pos)) + 4
+//@   loop 1 invariant [C09] $cost <= 2 * (pos - old(h.pos))
 
 //@ func (*h5State).stateBeforeAttributeName
 //@   requires wfH(h) && midState(h)
@@ -316,6 +335,7 @@ package libinjection
 //@                 (h.state == h.stateEOF ==> b + h.tokenLen == h.len) &&
 //@                 (h.state == h.stateAfterAttributeValueQuotedState ==> b + h.tokenLen < h.len && h.s[b + h.tokenLen] == ch && h.pos == b + h.tokenLen + 1)
 //@   ensures  [C17] @stream streamOK(h, old(h.pos)) && potQ(h) >= old(h.pos) + 1
+//@   cost     <= cpos(h) - old(h.pos) + 3
 
 //@ func (*h5State).stateAttributeValueSingleQuote
 //@   requires wfM(h) && (h.pos == 0 || h.pos < h.len)
@@ -414,11 +434,16 @@ package libinjection
 //@   loop 2 invariant [C19] (forall k in [2, i): isDec(s[k])) && val == decVal(arr(s), off(s) + 2, off(s) + i)
 //@   loop 2 unfold decVal(arr(s), off(s) + 2, off(s) + i + 1)
 //@   loop 2 decreases length - i
+//@   cost     <= result1 + 2 + ((len(s) >= 1 && s[0] == '&') ? firstAbs(arr(s), off(s) + 1, off(s) + len(s), '&') - (off(s) + 1) : 0)
+//@   loop 1 invariant [C09] $cost <= i && (forall k in [1, i): s[k] != '&')
+//@   loop 2 invariant [C09] $cost <= i && (forall k in [1, i): s[k] != '&')
 
 //@ func htmlEncodeStartsWith
 //@   modifies nothing
 //@   loop 1 invariant 0 <= pos && 0 <= length && pos + length == len(b)
 //@   loop 1 decreases length
+//@   cost     <= 8 * len(b) + len(a) + 8
+//@   loop 1 invariant [C09] $cost <= 6 * pos + (firstAbs(arr(b), off(b) + pos, off(b) + len(b), '&') - (off(b) + pos)) && len(bs) <= pos
 
 //@ func isBlackURL
 //@   modifies nothing
@@ -487,6 +512,7 @@ package libinjection
 //@   requires 0 <= length && min(length, 31) <= len(value)
 //@   modifies t.category, t.pos, t.len, t.val
 //@   ensures  [C01 C16 C18] @assign t.category == tokenType && t.pos == pos && t.len == min(length, 31) && aliases(t.val, value[:min(length, 31)])
+//@   cost     <= 1
 
 //@ func (*sqliToken).isUnaryOp
 //@   requires 0 <= t.len && t.len <= len(t.val)
@@ -511,22 +537,24 @@ package libinjection
 //@   ensures  [C01 C16] @nonempty result != 0 ==> len(key) >= 1
 //@   ensures  [C01 C08] @nocomment result != sqliTokenTypeComment
 //@   ensures  [C01] @fp3 result == sqliTokenTypeFingerprint && len(key) == 3 && key[0] < 128 && key[1] < 128 && key[2] < 128 ==> up(key[2]) == 'C' || up(key[2]) == 'U'
+//@   cost     <= 4 * len(key) + 6
 
 // ---- C18 oracle: where a quoted literal ends.
-// bsRunA(a, lo, j): number of consecutive backslashes ending just before absolute index j, not going below lo.
+// bsRunA(a, lo, j): number of consecutive backslashes ending just before absolute index j, not going below lo
+// (first-order: distance to the last non-backslash byte before j).
 // scanEnd(a, lo, i, hi, d): absolute index of the first closing delimiter at or after i for a literal whose content
 // starts at lo (a delimiter preceded by an odd backslash run is skipped; a doubled delimiter is skipped as a pair);
-// hi if there is none. Both are recursive spec functions, unfolded only at explicit hints.
-//@ specrec bsRunA(a array, lo int, j int) int = j <= lo ? 0 : (sel(a, j - 1) == '\\' ? 1 + bsRunA(a, lo, j - 1) : 0)
+// hi if there is none. Recursive spec function, unfolded only at explicit hints (well-founded: the index grows towards hi).
+//@ spec bsRunA(a array, lo int, j int) int = j - 1 - lastNeAbs(a, lo, j, '\\')
 //@ specrec scanEnd(a array, lo int, i int, hi int, d int) int = firstAbs(a, i, hi, d) >= hi ? hi :
 //@      (odd(bsRunA(a, lo, firstAbs(a, i, hi, d))) ? scanEnd(a, lo, firstAbs(a, i, hi, d) + 1, hi, d) :
 //@       ((firstAbs(a, i, hi, d) + 1 < hi && sel(a, firstAbs(a, i, hi, d) + 1) == d) ? scanEnd(a, lo, firstAbs(a, i, hi, d) + 2, hi, d) : firstAbs(a, i, hi, d)))
 //@ func isBackslashEscaped
 //@   modifies nothing
-//@   unfold   bsRunA(arr(str), off(str), off(str) + len(str))
 //@   ensures  [C18] @parity result <==> odd(bsRunA(arr(str), off(str), off(str) + len(str)))
-//@   loop 1 invariant [C18] bsRunA(arr(str), off(str), off(str) + len(str)) == count + bsRunA(arr(str), off(str), off(str) + i + 1)
-//@   loop 1 unfold bsRunA(arr(str), off(str), off(str) + i + 1)
+//@   cost     <= bsRunA(arr(str), off(str), off(str) + len(str)) + 2
+//@   loop 1 invariant [C18 C09] count == len(str) - 1 - i && (forall k in [i + 1, len(str)): str[k] == '\\')
+//@   loop 1 invariant [C09] $cost <= count
 //@   loop 1 invariant -1 <= i && i < len(str) && 0 <= count && count <= len(str) - 1 - i
 //@   loop 1 decreases i + 1
 
@@ -545,6 +573,8 @@ package libinjection
 //@   loop 1 invariant 0 <= i && i <= length
 //@   loop 1 invariant [C01 C16] forall k in [0, i): accept[s[k]] != 1
 //@   loop 1 decreases length - i
+//@   cost     <= result
+//@   loop 1 invariant [C09] $cost <= i
 
 // ---- lexers. Every lexer, started at offset p = s.pos < s.length, returns r with p < r <= length
 // and leaves in *s.current either the zero token (white space) or a faithful token inside [p, r).
@@ -566,6 +596,9 @@ package libinjection
 //@   loop 1 invariant suffixOf(str, s) && off(str) >= off(s) + pos + offset
 //@   loop 1 invariant t.strOpen == (offset > 0 ? delimiter : 0)
 //@   loop 1 decreases len(str)
+//@   requires @quote delimiter != '\\'
+//@   cost     <= 7 * (result - (pos + offset)) + 12
+//@   loop 1 invariant [C09] $cost <= 7 * (off(str) - (off(s) + pos + offset)) + 2 && (off(str) == off(s) + pos + offset || sel(arr(s), off(str) - 1) == delimiter)
 
 //@ func parseEolComment
 //@   requires wfS(s) && s.pos < s.length && (s.input[s.pos] == '#' || (s.input[s.pos] == '-' && s.pos + 1 < s.length && s.input[s.pos+1] == '-'))
@@ -630,7 +663,7 @@ package libinjection
 //@   ensures  [C01 C16] @lex lexOK(s, result)
 
 //@ func parseString
-//@   requires wfS(s) && s.pos < s.length
+//@   requires wfS(s) && s.pos < s.length && (s.input[s.pos] == '\'' || s.input[s.pos] == '"')
 //@   modifies s.current.category, s.current.pos, s.current.len, s.current.val, s.current.strOpen, s.current.strClose
 //@   ensures  [C01 C16] @lex lexOK(s, result) && s.current.category == sqliTokenTypeString
 //@   ensures  [C18] @core corePost(s.current, s.input, old(s.pos), 1, s.input[old(s.pos)], result)
@@ -642,6 +675,8 @@ package libinjection
 //@   loop 1 invariant 0 <= i && i <= s.current.len && wfS(s) && s.current.category == sqliTokenTypeBareWord && s.current.pos == s.pos &&
 //@                    s.current.len == min(length, 31) && aliases(s.current.val, s.input[s.pos : s.pos + s.current.len]) && 1 <= length && s.pos + length <= s.length
 //@   loop 1 decreases s.current.len - i
+//@   cost     <= (result - old(s.pos)) + 5000
+//@   loop 1 invariant [C09] $cost <= 40 + 140 * i
 
 //@ func parseVar
 //@   requires wfS(s) && s.pos < s.length
